@@ -69,7 +69,8 @@ macro_rules! impl_timestamp {
           Err(e) => {
             let dur = e.duration();
             let complement_nanos = dur.subsec_nanos();
-            let ceil_secs = -(dur.as_secs() as i64);
+            // 2^63 seconds before the epoch is still a valid SystemTime
+            let ceil_secs = (dur.as_secs() as i64).wrapping_neg();
             if complement_nanos == 0 {
               (ceil_secs, 0)
             } else {
